@@ -63,6 +63,8 @@ for _i, _t in IN_NAMES.items():
 for _i, _t in OUT_NAMES.items():
     _names[_i] = dns.name.from_text(_t)
 _name_id = {v: k for k, v in _names.items()}
+# the same names spelled in upper case (DNS names compare case-insensitively)
+_names_upper = {k: dns.name.Name([l.upper() for l in v.labels]) for k, v in _names.items()}
 
 
 def zname(n, rel):
@@ -156,7 +158,9 @@ def build_wire(w):
     for qn, qt in qs:
         m.question.append(dns.rrset.RRset(_names[qn], IN, qt))
     for n, c, t, cv, ttl, d in recs:
-        rs = dns.rrset.RRset(_names[n], c, t, cv)
+        # every third record (by content) carries its owner name in upper case on the wire
+        owner = _names_upper[n] if (ttl + d + t) % 3 == 0 else _names[n]
+        rs = dns.rrset.RRset(owner, c, t, cv)
         rs.add(mk_rdata(c, t, cv, d, False))
         rs.ttl = ttl
         m.answer.append(rs)
@@ -649,7 +653,7 @@ def gen_key(rng, names):
     n = rng.choice(names)
     r = rng.random()
     if r < 0.12:
-        return (n, RRSIG, rng.choice([A, NS, TXT]))
+        return (n, RRSIG, rng.choice([A, NS, TXT, SOA]))
     t = rng.choice(REC_TYPES)
     if t == NS and n == 0:
         t = TXT
